@@ -165,7 +165,14 @@ PROPS = {
                       "file-info decoder get the same treatment. Estimates: lzma_raw_encoder_memusage, "
                       "lzma_easy_encoder_memusage, lzma_stream_encoder_mt_memusage, lzma_raw_decoder_memusage, "
                       "lzma_easy_decoder_memusage >= measured peak of a real session for seeded option sets.",
-        "level_note": "The xz --memlimit clause is checked by the xzsim engine (thorough tier of C18/C17 runs; see DESIGN.md). "
+        "xzsim_extra": {"what": "memlimit", "quick": 600, "thorough": 10000},
+        "level_note": "The xz --memlimit clause: the xz tool itself runs under the system-call shim with malloc/calloc/realloc/free of "
+                      "the whole process counted and its worker threads under the deterministic scheduler; compression and "
+                      "decompression with --memlimit-compress / --memlimit-decompress / --memlimit-mt-decompress / -M at limits "
+                      "from 1 MiB to 200 MiB, -T1..6, presets and explicit LZMA2 options, --no-adjust, --block-size: exit 0 "
+                      "implies heap peak <= limit + 256 KiB and correct output; a refusal names the limit, writes nothing and is "
+                      "not spurious; with only the threading limit set xz never fails and stays within max(limit, what one "
+                      "thread needs). "
                       "Encoder estimates are compared for sessions of <= 400 Blocks because they do not cover the growing Index.",
         "rule": "One evaluation = one scenario run (decoder-limit, estimate or index-limit scenario; each executes the coder two to "
                 "four times with different limits). distinct_nontrivial = distinct (coder kind, limit position, declared "
